@@ -98,7 +98,7 @@ PROPS["C02"] = {
                     "credentials with the real keys, by a leak scan of cookie values and store entries (raw, base64- and hex-decoded views) "
                     "and by trying to open store entries with key material found in the store"],
     "trusted_base": ["Go's crypto/hmac, crypto/aes, crypto/cipher used by the driver to build the oracle tables"],
-    "level_text": "c02_save_adopts_only_valid_ticket (a save - login completion or refresh - writes under the ticket the request presents only if that cookie validates, else under the freshly generated one), c02_accepted_has_valid_mac (for every presented string: accepted => field 3 decodes to the MAC of name++field1++field2), "
+    "level_text": "c02_credential_reads_pinned / c02_credential_reads_reviewed (every req.Cookie / Cookies() read and every encryption.Validate / SignedValue call in ALL non-test sources, regenerated on every run, is the reviewed list in which each read is validated in place, by its caller or by its callee, or uses cookie names only); c02_save_adopts_only_valid_ticket (a save - login completion or refresh - writes under the ticket the request presents only if that cookie validates, else under the freshly generated one), c02_accepted_has_valid_mac (for every presented string: accepted => field 3 decodes to the MAC of name++field1++field2), "
                   "c02_accepted_alteration_is_issued, c02_mac_input_ambiguity (full characterisation of the unseparated-concatenation "
                   "ambiguity, observation O1), c02_cross_name, c02_parts_order / c02_parts_gap (split cookies), c02_ticket_reads_only_valid "
                   "and c02_ticket_session_from_store (store touched only for a validated ticket) are proved for all inputs of the Gallina "
@@ -180,7 +180,7 @@ PROPS["C07"] = {
     "assumptions": ["net/http Header Add/Del/Set and textproto.CanonicalMIMEHeaderKey are modelled (association list with canonical keys)",
                     "time.Time.String() rendering of created_at / expires_on is passed through as an opaque string"],
     "trusted_base": ["spoof markers and reconstruction of the expected user / access-token header in the driver"],
-    "level_text": "c07_legacy_request_authorization / c07_legacy_response_authorization / c07_legacy_preserve_uniform (the conversion of the legacy flags, Model/LegacyHeaders.v: which Authorization entry each flag combination yields and that every generated entry carries the same preserve bit = not skip-auth-strip-headers), compared with LegacyHeaders.convert on all 2x512 flag masks on every run; c07_request (for every client header map, optional session and configuration: value under a configured name = client "
+    "level_text": "c07_header_writes_pinned / c07_header_writes_reviewed (every Set / Add / Del on a header map in ALL non-test sources outside the provider clients, regenerated on every run, is the reviewed list: injectors, strip, flatten, the GAP-Auth copy of the authenticated user, fixed response headers); c07_legacy_request_authorization / c07_legacy_response_authorization / c07_legacy_preserve_uniform (the conversion of the legacy flags, Model/LegacyHeaders.v: which Authorization entry each flag combination yields and that every generated entry carries the same preserve bit = not skip-auth-strip-headers), compared with LegacyHeaders.convert on all 2x512 flag masks on every run; c07_request (for every client header map, optional session and configuration: value under a configured name = client "
                   "values only if no entry strips it, then the session/secret-derived values in configuration order, comma-joined), "
                   "c07_client_values_ignored (non-interference for stripped names), c07_bypass, c07_empty_claim, c07_response are proved on "
                   "the Gallina model of stripHeaders / Inject / flattenHeaders / GetClaim; compared with the Go injectors on every run.",
@@ -202,13 +202,13 @@ PROPS["C06"] = {
                     "the browser is modelled for targets beginning with '/' only (c06_relative); for absolute targets the browser's reading is "
                     "checked by the Node oracle on every accepted string, not proved (no model of WHATWG host parsing / IDNA here)"],
     "trusted_base": ["Node 20 WHATWG URL as the browser; reference whitelist reading in the driver (vRefAllowed)"],
-    "level_text": "c06_relative (for every byte string: accepted by the relative rule => a browser stays on the request host), "
+    "level_text": "c06_location_header (for every accepted relative target and either verdict of net/url.Parse, the Location header http.Redirect sets - path.Clean before the query, trailing slash kept, non-ASCII escaped: Model/GoPath.v - still reads in a browser as a path on the current host); c06_relative (for every byte string: accepted by the relative rule => a browser stays on the request host), "
                   "c06_accepted_cases, c06_empty_whitelist, c06_chain (every target GetRedirect returns is '/' or validated, for every request), "
                   "c06_callback, c06_identity (a valid rd path is returned byte for byte), c06_regex_literal are proved on the Gallina model of "
                   "validator.go / director.go / getters.go; decisions are compared with the Go code on an exhaustive token enumeration and every "
                   "accepted target is resolved by a real WHATWG URL parser on every run.",
     "level_note": "_partial for absolute targets: agreement between net/url's and a browser's host parsing is exercised (Node), not proved; "
-                  "http.Redirect's path cleaning is exercised through the emitted Location, not modelled.",
+                  "http.Redirect's rewriting is modelled for targets without scheme and host only (absolute targets are sent as they are).",
 }
 
 PROPS["C16"] = {
@@ -241,13 +241,13 @@ PROPS["C11"] = {
     "assumptions": ["HMAC modelled as a function (table); the store is an association list in the model",
                     "lock keys (`<ticket>.lock`) are not session entries"],
     "trusted_base": ["net/http/cookiejar as the browser"],
-    "level_text": "c11_cookies (every presented cookie of the session family is deleted under its own name with the configured path and "
+    "level_text": "c11_signout_race_reliable_provider (a sign-out racing a request on one stale session, Model/SignOutRace.v: for EVERY interleaving of their store / lock / provider operations, once both are finished the stored session is gone, provided the provider answers every refresh call; by a computed reachable-state set shown closed under both requests' moves), c11_signout_race_refuted and c11_signout_race_refuted_at_boundary (without the proviso the clause is false of the faithful model and of the code: known finding F21); the model is run on every schedule the deterministic scheduler explores on the real proxy, including a provider that fails the first refresh attempt; c11_cookies (every presented cookie of the session family is deleted under its own name with the configured path and "
                   "selected domain), c11_success_implies_deleted and c11_error (server-side store: success redirect only if the delete "
                   "succeeded; a failed delete gives the error page), c11_ticket_cookie_deleted, c11_stays_deleted (induction over every later "
                   "history of store operations not re-writing the key) and c11_replay (no cookie resolving to the deleted ticket loads a "
                   "session) are proved on the Gallina model of SignOut / Manager.Clear / cookie-store Clear; the model and oracles are "
                   "compared with the real proxy on sign-out histories on every run.",
-    "level_note": "interleavings of a sign-out with a concurrent refreshing request are explored under C12's scheduler, not here.",
+    "level_note": "_partial for concurrency: a sign-out racing a refreshing request can leave the stored session behind when the provider fails the sign-out request's own refresh call or the session's age crosses the refresh period between the two requests (known finding F21 in KNOWN_FINDINGS.txt, proved as the refutation witness); sequential histories are covered in full.",
 }
 
 PROPS["C12"] = {
